@@ -344,9 +344,43 @@ def check_C05(tier, seed, replay=None):
     nin = len(inputs)
     lrin = add_lr(groups, inputs, 60 if tier == "quick" else 400, seed)     # state blocks inside left-recursive growth
     recin = add_rec(groups, inputs, nrand // 5, seed, state=True, cloner=True, gstore=True, preds=True)    # state changes across many nested rule frames
+    # throw / recover with a store in use: a throw that falls through k failing recovery expressions (each of which changes the
+    # store before it fails) to one that matches; what runs afterwards sees the store as it was at the throw plus the matching
+    # handler's own changes -- and random grammars with recovery operators and state blocks
+    from peg import Gram
+    X_ = 120
+    thr = []
+    for k_ in range(1, 4):
+        for wrap in (None, "opt", "star"):
+            for dirty in (False, True):
+                g = Gram(len(groups) + len(thr) + 1)
+                e = g.seq([g.lit([F.A]), g.state("inc", "x", 1), g.throw("la")])
+                for i in range(k_):
+                    failing = g.seq(([g.state("set", "y", 2 + i), g.state("app", "cl", 7)] if dirty else []) + [g.lit([F.B]), g.lit([F.B]), g.lit([F.B])])
+                    e = g.recover(e, failing, ["la"] if i != 1 else ["lb", "la"])
+                e = g.recover(e, g.action(g.seq([g.state("inc", "x", 10), g.un("star", g.any())])), ["la"])
+                if wrap:
+                    e = g.un(wrap, e)
+                tail = g.action(g.seq([g.pred(False, "eq", key="x", arg=12), g.un("star", g.any())]))
+                g.rules = [g.seq([g.state("set", "x", 1), g.state("app", "cl", 2), e, tail])]
+                g.disp = [""]
+                g.compute_args()
+                g.maydiverge = g.may_diverge()
+                g.tags.add("thr")
+                thr.append(g)
+    groups += thr
+    thrg = F.random_groups(seed + 31, nrand // 5, F.RandCfg(depth=4, maxrules=3, state=True, cloner=True, throw=True, preds=True), gi0=len(groups) + 1)
+    groups += thrg
+    thr_first = len(inputs)
+    inputs += F.all_inputs([F.A, F.B, X_], 3)
+    thrin = list(range(thr_first, len(inputs)))
+    for g in thrg:
+        g.tags.add("thr")
     bp = with_rec(budget_plan(nin, lr_inputs=lrin), recin)
 
     def plan5(g):
+        if "thr" in g.tags:
+            return [(ii, 1 if g.maydiverge else 0) for ii in thrin]
         pl = bp(g)
         if "lr" not in g.tags:
             pl = pl + [(ii, 3 if g.maydiverge else 2) for ii in range(0, nin, 2)]
@@ -2044,6 +2078,11 @@ def check_C13(tier, seed, replay=None):
         return head + b"".join(b"A%d <- " % i + body.replace(b"@", b"A%d" % (i + 1)) + b"\n" for i in range(n)) + b"A%d <- " % n + last + b"\n"
     texts += [("dag", dag(60, b"@ / @")), ("dag", dag(200, b"@ / @")), ("dag", dag(60, b"@ @? / &@ 'y' / @")), ("dag", dag(80, b"l:@ { return l, nil } / @")),
               ("dag", dag(40, b"@ / @", b"N A0 'x' / 'y'") + b"N <- 'n'?\n"), ("dag", dag(50, b"(@ //{e} @) / @", b"'x' %{e} / 'z'"))]
+    # dense left-call graphs: n rules that each begin with a reference to every one of them (choosing a leader must not
+    # enumerate the cycles of the component: repaired defect F37)
+    def dense_lr(n):
+        return head + b"".join(b"R%d <- " % i + b" / ".join(b'R%d "x"' % j for j in range(n)) + b' / "y"\n' for i in range(n))
+    texts += [("dag", dense_lr(12)), ("dag", dense_lr(25)), ("dag", dense_lr(40))]
     # known finding F32: -optimize-grammar inlines every rule without references wherever it is used, so on such a chain the
     # optimised grammar doubles with every rule: out of memory (a Go crash trace) instead of a parser or a diagnostic
     texts.append(("kf32", dag(34, b"@ / @")))
